@@ -20,22 +20,28 @@ from .common import walk, src, strip, Scopes, AnchorError
 MODS = ("check::constrain::generate", "check::constrain::unify")
 
 
-def _lit(e):
+def _lit(e, sc=None, depth=0):
     e = strip(e)
     if e.get("k") == "lit" and e.get("t") == "str":
         return e["v"]
-    # format!("...") message: take the template
+    # format!("...") message: take the template (positional, numbered and inline-captured placeholders alike)
     for n in walk(e):
         if n.get("k") == "macro" and n.get("name", "").endswith("format_args") and n.get("args") and n["args"][0].get("k") == "lit":
-            return re.sub(r"\{\d+(:[^}]*)?\}", "{}", n["args"][0]["v"])
+            return re.sub(r"\{\w*(:[^}]*)?\}", "{}", n["args"][0]["v"])
     if e.get("k") == "path":
+        # `let msg = format!(..); constr.add(&msg, ..)`: the message is the local's initialiser
+        if sc is not None and depth < 4:
+            b = sc.resolve(e)
+            if b is not None and b.kind == "let" and b.init is not None:
+                return _lit(b.init, sc, depth + 1)
         return "$" + e["p"]
     return "?"
 
 
 class Roles:
-    def __init__(self, fn):
+    def __init__(self, fn, syn=None):
         self.fn = fn
+        self.syn = syn
         self.sc = Scopes(fn)
 
     def role(self, e, depth=0):
@@ -67,6 +73,16 @@ class Roles:
                 return "any"
             if f in ("Box::from", "Box::new") and len(a) == 1:
                 return self.role(a[0], depth + 1)
+            # a private helper of the same module that builds the Expected (`access(fun, left, right)`): its role is what it builds
+            if self.syn is not None and "::" not in f and depth < 4:
+                hs = [h for h in self.syn.fns if h["name"] == f and h["mod"] == self.fn["mod"] and h.get("body") and not h.get("impl_of")]
+                if len(hs) == 1:
+                    from .common import tail_expr
+                    t = tail_expr(hs[0]["body"])
+                    if t is not None:
+                        r = Roles(hs[0], self.syn).role(t, depth + 1)
+                        if not r.startswith("var:") and r not in ("?", "deep", "conditional"):
+                            return r
             return "call:" + f
         if k == "mcall":
             if e["m"] in ("clone", "to_owned"):
@@ -148,8 +164,8 @@ def census(syn):
             if site is None:
                 continue
             if r is None:
-                r = Roles(fn)
+                r = Roles(fn, syn)
             kind, msg, p, c = site
-            out.append({"fn": fn["qual"].replace("check::constrain::", ""), "kind": kind, "msg": _lit(msg),
+            out.append({"fn": fn["qual"].replace("check::constrain::", ""), "kind": kind, "msg": _lit(msg, r.sc),
                         "parent": r.role(p), "child": r.role(c) if c is not None else "-"})
     return out
